@@ -389,3 +389,245 @@ Proof.
   assert (k1 <> k2) by (intros ->; congruence).
   assert (k1 <= k2) by (apply L1; rewrite <- O1 by auto; congruence). lia.
 Qed.
+
+(** *** Refinement to the mathematical map.
+
+    [absf s] is the finite map denoted by a state; [math_post m o m'] says that [m'] is the result of the
+    obvious mathematical operation of [o] on [m] (pointwise, so no functional extensionality is needed). *)
+
+Definition absf (s : list item) : Z -> option Z := fun k => mfind k s.
+
+Definition math_post (m : Z -> option Z) (o : kop) (m' : Z -> option Z) : Prop :=
+  match o with
+  | KInsert k v | KInsertF k v =>
+      forall x, m' x = if Z.eqb x k then (match m k with Some w => Some w | None => Some v end) else m x
+  | KUpdate k v a | KUpsert k v a =>
+      forall x, m' x = if Z.eqb x k then (match m k with Some _ => Some v | None => if a then Some v else None end) else m x
+  | KErase k | KEraseF k | KUnlink k | KExtract k =>
+      forall x, m' x = if Z.eqb x k then None else m x
+  | KClear => forall x, m' x = None
+  | KExtractMin =>
+      ((forall x, m x = None) /\ forall x, m' x = None) \/
+      exists k, m k <> None /\ (forall x, m x <> None -> k <= x) /\ forall x, m' x = if Z.eqb x k then None else m x
+  | KExtractMax =>
+      ((forall x, m x = None) /\ forall x, m' x = None) \/
+      exists k, m k <> None /\ (forall x, m x <> None -> x <= k) /\ forall x, m' x = if Z.eqb x k then None else m x
+  | KUnlinkForeign _ | KContains _ | KFindF _ | KGet _ | KSize | KEmpty | KIter => forall x, m' x = m x
+  end.
+
+Lemma absf_del : forall k s x, absf (mdel k s) x = if Z.eqb x k then None else absf s x.
+Proof.
+  intros k s x; unfold absf. destruct (Z.eqb x k) eqn:E.
+  - apply Z.eqb_eq in E; subst; apply mfind_mdel_eq.
+  - apply Z.eqb_neq in E; now apply mfind_mdel_neq.
+Qed.
+
+Lemma absf_del_m : forall k s x, mfind x (mdel k s) = if Z.eqb x k then None else mfind x s.
+Proof. intros; apply absf_del. Qed.
+
+(* pointwise solver *)
+Ltac pt_solve k s E :=
+  let x := fresh "x" in let Ex := fresh "Ex" in
+  intros x; unfold absf; simpl; rewrite ?absf_del_m, ?E;
+  destruct (Z.eqb x k) eqn:Ex; auto; apply Z.eqb_eq in Ex; subst; rewrite ?E; auto.
+
+Theorem kstep_refines_math : forall c s o, math_post (absf s) o (absf (fst (kstep c s o))).
+Proof.
+  intros c s o; destruct o; simpl; unfold mhas; try (intros x; reflexivity).
+  - destruct (mfind k s) eqn:E; simpl; pt_solve k s E.
+  - destruct (mfind k s) eqn:E; simpl; pt_solve k s E.
+  - destruct (mfind k s) eqn:E; simpl; [|destruct allow; simpl]; pt_solve k s E.
+  - destruct (mfind k s) eqn:E; simpl; [|destruct allow; simpl]; pt_solve k s E.
+  - destruct (mfind k s) eqn:E; simpl; pt_solve k s E.
+  - destruct (mfind k s) eqn:E; simpl; pt_solve k s E.
+  - destruct (mfind k s) eqn:E; simpl; pt_solve k s E.
+  - destruct (mfind k s) eqn:E; simpl; pt_solve k s E.
+  - (* KFindF *) destruct (mfind k s); simpl; intros x; reflexivity.
+  - (* KExtractMin *) destruct (kmin s) as [[k v]|] eqn:E; simpl.
+    + right. destruct (kmin_some _ _ _ E) as [F L]. exists k. split; [unfold absf; congruence|]. split.
+      * intros x Hx; apply L; now apply mfind_keys.
+      * intros x; apply absf_del.
+    + left. apply kmin_none in E; subst; split; intros x; reflexivity.
+  - (* KExtractMax *) destruct (kmax s) as [[k v]|] eqn:E; simpl.
+    + right. destruct (kmax_some _ _ _ E) as [F L]. exists k. split; [unfold absf; congruence|]. split.
+      * intros x Hx; apply L; now apply mfind_keys.
+      * intros x; apply absf_del.
+    + left. apply kmax_none in E; subst; split; intros x; reflexivity.
+Qed.
+
+(** contents after a whole sequence = fold of the mathematical operations: there is a chain of maps, one per
+    operation, starting from the empty map, each related to the next by [math_post], ending in the state's map *)
+Fixpoint math_chain (m : Z -> option Z) (ops : list kop) (m' : Z -> option Z) : Prop :=
+  match ops with
+  | [] => forall x, m' x = m x
+  | o :: ops' => exists m1, math_post m o m1 /\ math_chain m1 ops' m'
+  end.
+
+Lemma krun_refines_math : forall c ops s, math_chain (absf s) ops (absf (fst (krun c s ops))).
+Proof.
+  intros c ops; induction ops as [|o ops IH]; intros s; simpl.
+  - intros x; reflexivity.
+  - destruct (kstep c s o) as [s1 r] eqn:E. specialize (IH s1). destruct (krun c s1 ops) as [s2 rs]; simpl in *.
+    exists (absf s1). split; auto. change s1 with (fst (s1, r)); rewrite <- E; apply kstep_refines_math.
+Qed.
+
+Theorem contents_refine_math : forall c ops,
+  math_chain (fun _ => None) ops (absf (kstate c ops)) /\ NoDup (keys (kstate c ops)).
+Proof. intros c ops; split; [apply (krun_refines_math c ops []) | apply kstate_nodup]. Qed.
+
+(** the state transitions of the set / map operations are exactly those of [Specs.MapSpec] *)
+Theorem kstep_agrees_with_MapSpec : forall c s k v a,
+  fst (kstep c s (KInsert k v)) = fst (map_step s (MInsert k v)) /\
+  ko_res (snd (kstep c s (KInsert k v))) = (match snd (map_step s (MInsert k v)) with RBool b => KBool b | _ => KUnit end) /\
+  fst (kstep c s (KUpsert k v a)) = fst (map_step s (MUpdate k v a)) /\
+  ko_res (snd (kstep c s (KUpsert k v a))) = (match snd (map_step s (MUpdate k v a)) with RPair x y => KPair x y | _ => KUnit end) /\
+  fst (kstep c s (KErase k)) = fst (map_step s (MErase k)) /\
+  ko_res (snd (kstep c s (KErase k))) = (match snd (map_step s (MErase k)) with RBool b => KBool b | _ => KUnit end) /\
+  ko_res (snd (kstep c s (KContains k))) = (match snd (map_step s (MContains k)) with RBool b => KBool b | _ => KUnit end).
+Proof.
+  intros c s k v a; simpl; unfold mhas. destruct (mfind k s); simpl; repeat split; auto; destruct a; auto.
+Qed.
+
+(** iteration lists every item exactly once, in key order *)
+Lemma kins_perm : forall i l, Permutation (kins i l) (i :: l).
+Proof.
+  intros i l; induction l as [|j l IH]; simpl; auto.
+  destruct (fst i <=? fst j); auto. rewrite IH. apply perm_swap.
+Qed.
+
+Lemma ksort_perm : forall l, Permutation (ksort l) l.
+Proof. induction l as [|i l IH]; simpl; auto. rewrite kins_perm; auto. Qed.
+
+Inductive ksorted : list item -> Prop :=
+| ks_nil : ksorted []
+| ks_one : forall i, ksorted [i]
+| ks_cons : forall i j l, fst i <= fst j -> ksorted (j :: l) -> ksorted (i :: j :: l).
+
+Lemma kins_sorted : forall i l, ksorted l -> ksorted (kins i l).
+Proof.
+  intros i l H; induction H as [|j|j j' l Hle H IH]; simpl.
+  - constructor.
+  - destruct (fst i <=? fst j) eqn:E; [apply Z.leb_le in E | apply Z.leb_gt in E]; constructor; try lia; constructor.
+  - destruct (fst i <=? fst j) eqn:E; [apply Z.leb_le in E | apply Z.leb_gt in E].
+    + constructor; auto. now constructor.
+    + simpl in IH. destruct (fst i <=? fst j') eqn:E'; [apply Z.leb_le in E' | apply Z.leb_gt in E'].
+      * constructor; [lia|]. constructor; auto.
+      * constructor; auto.
+Qed.
+
+Lemma ksort_sorted : forall l, ksorted (ksort l).
+Proof. induction l; simpl; [constructor | now apply kins_sorted]. Qed.
+
+Theorem iter_lists_contents : forall c s,
+  fst (kstep c s KIter) = s /\
+  exists l, ko_res (snd (kstep c s KIter)) = KList l /\ Permutation l s /\ ksorted l.
+Proof. intros c s; simpl; split; auto. exists (ksort s); auto using ksort_perm, ksort_sorted. Qed.
+
+(** *** Disposer accounting *)
+
+Definition sum_disp (outs : list kout) : nat := fold_right (fun r n => (ko_disp r + n)%nat) 0%nat outs.
+Definition sum_held (outs : list kout) : nat := fold_right (fun r n => (ko_held r + n)%nat) 0%nat outs.
+
+Fixpoint sum_linked (c : kcfg) (ops : list kop) (outs : list kout) : nat :=
+  match ops, outs with
+  | o :: ops', r :: outs' => (linked c o r + sum_linked c ops' outs')%nat
+  | _, _ => 0%nat
+  end.
+
+Fixpoint sum_handed (ops : list kop) (outs : list kout) : nat :=
+  match ops, outs with
+  | o :: ops', r :: outs' => (handed o r + sum_handed ops' outs')%nat
+  | _, _ => 0%nat
+  end.
+
+Definition returned (c : kcfg) (o : kop) (r : kout) : nat :=
+  match kc_disp c with DManual => handed o r | _ => 0%nat end.
+
+Lemma kstep_account : forall c s o, wf s ->
+  kc_disp c <> DNone -> (kc_disp c = DManual -> kc_replace c = false) ->
+  let s' := fst (kstep c s o) in let r := snd (kstep c s o) in
+  (linked c o r + length s = length s' + ko_disp r + returned c o r)%nat.
+Proof.
+  intros c s o Hwf Hd Hm. unfold returned, d_gc, d_clear.
+  assert (L : forall k, mfind k s <> None -> S (length (mdel k s)) = length s) by (intros; now apply length_mdel).
+  destruct o; simpl; unfold mhas, d_gc, d_clear;
+    try (destruct (mfind k s) eqn:E; [assert (E' := L k ltac:(congruence))|]; simpl);
+    try (destruct allow; simpl);
+    try (destruct (kc_disp c) eqn:D; try congruence; try (rewrite (Hm eq_refl)); try destruct (kc_replace c); simpl; lia).
+  - (* xmin *) destruct (kmin s) as [[k v]|] eqn:E; simpl.
+    + destruct (kmin_some _ _ _ E) as [F _]. assert (E' := L k ltac:(congruence)).
+      destruct (kc_disp c) eqn:D; try congruence; simpl; lia.
+    + destruct (kc_disp c); simpl; lia.
+  - (* xmax *) destruct (kmax s) as [[k v]|] eqn:E; simpl.
+    + destruct (kmax_some _ _ _ E) as [F _]. assert (E' := L k ltac:(congruence)).
+      destruct (kc_disp c) eqn:D; try congruence; simpl; lia.
+    + destruct (kc_disp c); simpl; lia.
+Qed.
+
+Lemma krun_account : forall c ops s, wf s ->
+  kc_disp c <> DNone -> (kc_disp c = DManual -> kc_replace c = false) ->
+  let s' := fst (krun c s ops) in let outs := snd (krun c s ops) in
+  (sum_linked c ops outs + length s =
+   length s' + sum_disp outs + match kc_disp c with DManual => sum_handed ops outs | _ => 0 end)%nat.
+Proof.
+  intros c ops; induction ops as [|o ops IH]; intros s Hwf Hd Hm; simpl.
+  - destruct (kc_disp c); lia.
+  - assert (A := kstep_account c s o Hwf Hd Hm). assert (W := kstep_wf c s o Hwf).
+    destruct (kstep c s o) as [s1 r] eqn:E; simpl in *.
+    specialize (IH s1 W Hd Hm). destruct (krun c s1 ops) as [s2 rs]; simpl in *.
+    unfold returned in A. destruct (kc_disp c); simpl in *; lia.
+Qed.
+
+(** Intrusive container over a garbage collector: by the time the container is destroyed, the disposer has
+    been called exactly once per object that was ever linked: (objects linked) = (disposer calls of the
+    operations) + (disposer calls of the destructor).  While an extracted item is held nothing is disposed. *)
+Theorem disposer_count_law : forall c ops,
+  (kc_disp c = DGc ->
+     let (outs, fin) := krun_case c ops in sum_linked c ops outs = (sum_disp outs + fin)%nat) /\
+  (kc_disp c = DManual -> kc_replace c = false ->
+     let (outs, fin) := krun_case c ops in
+     fin = 0%nat /\ (sum_linked c ops outs = length (kstate c ops) + sum_disp outs + sum_handed ops outs)%nat) /\
+  (kc_disp c = DNone -> let (outs, fin) := krun_case c ops in sum_disp outs = 0%nat /\ fin = 0%nat) /\
+  sum_held (fst (krun_case c ops)) = 0%nat.
+Proof.
+  intros c ops. unfold krun_case, kstate, kfinal.
+  assert (W : wf []) by constructor.
+  repeat split.
+  - intros D. assert (A := krun_account c ops [] W ltac:(congruence) ltac:(congruence)).
+    destruct (krun c [] ops) as [s outs]; simpl in *. rewrite D in *. lia.
+  - destruct (krun c [] ops); rewrite H; auto.
+  - assert (A := krun_account c ops [] W ltac:(congruence) ltac:(auto)).
+    destruct (krun c [] ops) as [s outs]; simpl in *. rewrite H in *. lia.
+  - destruct (krun c [] ops) as [s outs] eqn:E; simpl.
+    assert (G : forall ops s, sum_disp (snd (krun c s ops)) = 0%nat).
+    { induction ops0 as [|o ops0 IH]; intros s0; simpl; auto.
+      assert (Z0 : ko_disp (snd (kstep c s0 o)) = 0%nat).
+      { destruct o; simpl; unfold mhas, d_gc, d_clear; rewrite H;
+          repeat match goal with |- context [match ?x with _ => _ end] => destruct x end; auto. }
+      destruct (kstep c s0 o) as [s1 r]; simpl in *. specialize (IH s1). destruct (krun c s1 ops0); simpl in *. lia. }
+    specialize (G ops []). rewrite E in G; auto.
+  - destruct (krun c [] ops); rewrite H; auto.
+  - assert (G : forall ops s, sum_held (snd (krun c s ops)) = 0%nat).
+    { induction ops0 as [|o ops0 IH]; intros s0; simpl; auto.
+      assert (Z0 : ko_held (snd (kstep c s0 o)) = 0%nat).
+      { destruct o; simpl; unfold mhas;
+          repeat match goal with |- context [match ?x with _ => _ end] => destruct x end; auto. }
+      destruct (kstep c s0 o) as [s1 r]; simpl in *. specialize (IH s1). destruct (krun c s1 ops0); simpl in *. lia. }
+    specialize (G ops []). destruct (krun c [] ops); auto.
+Qed.
+
+(** per operation: which operations dispose, and how many *)
+Theorem disposer_per_op : forall c s,
+  kc_disp c = DGc -> wf s ->
+  (forall k, ko_disp (snd (kstep c s (KErase k))) = (if mhas k s then 1 else 0)%nat) /\
+  (forall k, ko_disp (snd (kstep c s (KEraseF k))) = (if mhas k s then 1 else 0)%nat) /\
+  (forall k, ko_disp (snd (kstep c s (KUnlink k))) = (if mhas k s then 1 else 0)%nat) /\
+  (forall k, ko_disp (snd (kstep c s (KUnlinkForeign k))) = 0%nat) /\
+  (forall k, ko_disp (snd (kstep c s (KExtract k))) = (if mhas k s then 1 else 0)%nat /\ ko_held (snd (kstep c s (KExtract k))) = 0%nat) /\
+  (forall k v a, ko_disp (snd (kstep c s (KUpdate k v a))) = (if mhas k s && kc_replace c then 1 else 0)%nat) /\
+  (forall k v, ko_disp (snd (kstep c s (KInsert k v))) = 0%nat) /\
+  ko_disp (snd (kstep c s KClear)) = length s.
+Proof.
+  intros c s D Hwf; simpl; unfold mhas, d_gc, d_clear; rewrite D.
+  repeat split; intros; destruct (mfind k s); simpl; auto; try destruct (kc_replace c); auto; destruct a; auto.
+Qed.
